@@ -207,10 +207,9 @@ theorem wordIx_eq {x : MSt} (h : BmOk x.s.n x.bm) (q : Nat) :
     wordIx x Gen.BitMap.is_set_index q = C19.slotOf x.s.n q ∧ wordIx x Gen.BitMap.set_index q = C19.slotOf x.s.n q ∧
     wordIx x Gen.BitMap.unset_index q = C19.slotOf x.s.n q := by
   obtain ⟨k, b, hist, hn, hb, hinv⟩ := h
-  have h64 : (2 : Nat) ^ 6 = 64 := by decide
-  refine ⟨?_, ?_, ?_⟩ <;>
-    simp only [wordIx, bmIndex, hb, hn, Gen.BitMap.is_set_index, Gen.BitMap.set_index, Gen.BitMap.unset_index,
-      C19.slotOf, hinv.shape.mask, hinv.shape.shift, C19.masked_eq, Nat.shiftRight_eq_div_pow, h64]
+  obtain ⟨h1, h2, h3⟩ := C19.index_nf hinv.shape q
+  simp only [wordIx, bmIndex, hb, hn]
+  exact ⟨h1, h2, h3⟩
 
 /-- `has_capacity`, one acquire load of a last-stage cursor -/
 theorem capA_fact (o : Ords) (hget : o.get.isAcquire = true) (s : HMSt) (i : Nat) (hi : i < s.x.P) (hc : MCap s.x)
